@@ -30,7 +30,9 @@ var c01Sinks = []c01Sink{
 	{"vtext-default", func(pre, post string) string { return `<p v-text="nope | default(x)">old</p>` }, false},
 	{"text-pipe", func(pre, post string) string { return "<p>" + pre + "{{ x | trim }}" + post + "</p>" }, false},
 	{"attr-bound-pipe", func(pre, post string) string { return `<p :title="x | default('zz')">t</p>` }, true},
-	{"attr-interp-pipe", func(pre, post string) string { return `<p title="` + pre + `{{ nope | default(x) }}` + post + `">t</p>` }, true},
+	{"attr-interp-pipe", func(pre, post string) string {
+		return `<p title="` + pre + `{{ nope | default(x) }}` + post + `">t</p>`
+	}, true},
 	{"attr-interp", func(pre, post string) string { return `<p title="` + pre + `{{ x }}` + post + `">t</p>` }, true},
 	{"attr-bound", func(pre, post string) string { return `<p :title="x">t</p>` }, true},
 	{"attr-bound-interp", func(pre, post string) string { return `<p :title="` + pre + `{{ x }}` + post + `">t</p>` }, true},
@@ -82,6 +84,19 @@ var c01Constructs = []c01Construct{
 	{"vfor-root", func(s string, v any) (map[string]string, map[string]any) {
 		// the sink element itself carries v-for
 		return map[string]string{"page.vuego": strings.Replace(s, "<p", `<p v-for="x in items"`, 1)}, c01Data(v)
+	}},
+	// the sink element ITSELF is a member of a conditional chain (evaluated by evaluateNodeAsElement, a second copy of the directive sequence)
+	{"vif-root", func(s string, v any) (map[string]string, map[string]any) {
+		return map[string]string{"page.vuego": strings.Replace(s, "<p", `<p v-if="t"`, 1) + `<i v-else>no</i>`}, c01Data(v)
+	}},
+	{"velseif-root", func(s string, v any) (map[string]string, map[string]any) {
+		return map[string]string{"page.vuego": `<i v-if="none">n</i>` + strings.Replace(s, "<p", `<p v-else-if="t"`, 1) + `<i v-else>no</i>`}, c01Data(v)
+	}},
+	{"velse-root", func(s string, v any) (map[string]string, map[string]any) {
+		return map[string]string{"page.vuego": `<i v-if="none">n</i>` + strings.Replace(s, "<p", `<p v-else`, 1)}, c01Data(v)
+	}},
+	{"forelse-root", func(s string, v any) (map[string]string, map[string]any) {
+		return map[string]string{"page.vuego": `<i v-for="q in none">q</i>` + strings.Replace(s, "<p", `<p v-else`, 1)}, c01Data(v)
 	}},
 	{"vfor-else", func(s string, v any) (map[string]string, map[string]any) {
 		return map[string]string{"page.vuego": `<i v-for="q in none">q</i>` + strings.Replace(s, "<p", `<p v-else v-for="x in items"`, 1)}, c01Data(v)
